@@ -157,9 +157,8 @@ pub fn run_listener(ctx: &mut Ctx, c: &ListenerCase) -> Result<(), String> {
     }
     fx.barrier()?;
     let t = c.thread as usize % c.masks.len();
-    let handlers = fx.daemon.as_ref().unwrap().get_epoll_handlers();
     let lfd = new_eventfd();
-    let reg = handlers[t].register_listener(lfd.as_raw_fd(), EventSet::IN, c.id);
+    let reg = fx.daemon.as_ref().unwrap().register_listener(t, lfd.as_raw_fd(), c.id);
     let res = (|| -> Result<(), String> {
         if c.id <= n as u64 {
             ctx.class("listener_id_reserved");
@@ -205,8 +204,7 @@ pub fn run_listener(ctx: &mut Ctx, c: &ListenerCase) -> Result<(), String> {
         }
         Ok(())
     })();
-    let _ = handlers[t].unregister_listener(lfd.as_raw_fd(), EventSet::IN, c.id);
-    drop(handlers);
+    let _ = fx.daemon.as_ref().unwrap().unregister_listener(t, lfd.as_raw_fd(), c.id);
     ctx.sample(|| json!({"listener_id": format!("{:#x}", c.id), "num_queues": n, "thread": t, "masks": c.masks}));
     drop(cl);
     fx.teardown();
